@@ -24,31 +24,81 @@ fn write_trace(path: &str, events: &[Value]) {
 }
 
 fn run_many(hists: &[hist::History], threads: usize, cfg: &exec::RunCfg, out_prefix: &str, first_no: usize) {
-    let pool = rayon::ThreadPoolBuilder::new().num_threads(threads).build().unwrap();
-    let mut events = Vec::new();
-    let mut agg = exec::RunStats::default();
-    let mut hashes: BTreeSet<u64> = BTreeSet::new();
-    for (i, h) in hists.iter().enumerate() {
-        let st = pool.install(|| {
-            let mut ev = Vec::new();
-            let st = exec::run_history(h, first_no + i, cfg, &mut ev);
-            events.append(&mut ev);
-            st
+    // The histories run on a worker thread (inside a rayon pool of the requested size); this thread is the
+    // wall-clock watchdog: a build that neither returns nor polls the cancellation callback cannot be
+    // interrupted, so after VERIF_HANG_SECS without progress the trace collected so far is written with a
+    // final `Hang` event and the process exits.
+    use std::sync::{Arc, Mutex};
+    let hang_secs: u64 = std::env::var("VERIF_HANG_SECS").ok().and_then(|s| s.parse().ok()).unwrap_or(150);
+    let events: Arc<Mutex<Vec<Value>>> = Arc::new(Mutex::new(Vec::new()));
+    let agg: Arc<Mutex<(exec::RunStats, BTreeSet<u64>, usize)>> = Arc::new(Mutex::new((exec::RunStats::default(), BTreeSet::new(), 0)));
+    let (tx, rx) = std::sync::mpsc::channel::<bool>();
+    let finish = |events: &Vec<Value>, agg: &(exec::RunStats, BTreeSet<u64>, usize), hung: bool| {
+        write_trace(&format!("{out_prefix}.ndjson"), events);
+        std::fs::write(format!("{out_prefix}.hist.json"), serde_json::to_string(&hists).unwrap()).unwrap();
+        let a = &agg.0;
+        let stats = json!({"histories": if hung { agg.2 + 1 } else { hists.len() }, "events": a.events, "builds_ok": a.builds_ok, "builds_err": a.builds_err,
+            "panics": a.panics, "nontrivial_builds": a.nontrivial_builds, "distinct_forests": agg.1.len(), "threads": threads,
+            "first_no": first_no, "hung": hung});
+        std::fs::write(format!("{out_prefix}.stats.json"), stats.to_string()).unwrap();
+        println!("{stats}");
+    };
+    std::thread::scope(|sc| {
+        let events2 = events.clone();
+        let agg2 = agg.clone();
+        sc.spawn(move || {
+            let pool = rayon::ThreadPoolBuilder::new().num_threads(threads).build().unwrap();
+            for (i, h) in hists.iter().enumerate() {
+                let st = pool.install(|| {
+                    let mut ev = Vec::new();
+                    let st = exec::run_history(h, first_no + i, cfg, &mut ev);
+                    events2.lock().unwrap().append(&mut ev);
+                    st
+                });
+                let mut a = agg2.lock().unwrap();
+                a.0.events += st.events;
+                a.0.builds_ok += st.builds_ok;
+                a.0.builds_err += st.builds_err;
+                a.0.panics += st.panics;
+                a.0.nontrivial_builds += st.nontrivial_builds;
+                a.1.extend(st.state_hashes);
+                a.2 = i + 1;
+                drop(a);
+                tx.send(false).ok();
+            }
+            tx.send(true).ok();
         });
-        agg.events += st.events;
-        agg.builds_ok += st.builds_ok;
-        agg.builds_err += st.builds_err;
-        agg.panics += st.panics;
-        agg.nontrivial_builds += st.nontrivial_builds;
-        hashes.extend(st.state_hashes);
-    }
-    write_trace(&format!("{out_prefix}.ndjson"), &events);
-    std::fs::write(format!("{out_prefix}.hist.json"), serde_json::to_string(&hists).unwrap()).unwrap();
-    let stats = json!({"histories": hists.len(), "events": agg.events, "builds_ok": agg.builds_ok, "builds_err": agg.builds_err,
-        "panics": agg.panics, "nontrivial_builds": agg.nontrivial_builds, "distinct_forests": hashes.len(), "threads": threads,
-        "first_no": first_no});
-    std::fs::write(format!("{out_prefix}.stats.json"), stats.to_string()).unwrap();
-    println!("{stats}");
+        let mut last = *exec::PROGRESS.lock().unwrap();
+        loop {
+            match rx.recv_timeout(std::time::Duration::from_secs(hang_secs)) {
+                Ok(true) => break,
+                Ok(false) => continue,
+                Err(_) => {
+                    let now = *exec::PROGRESS.lock().unwrap();
+                    if now != last || !now.2 {
+                        last = now;
+                        continue;
+                    }
+                    // no progress for hang_secs inside one build
+                    let mut ev = events.lock().unwrap().clone();
+                    // the events of the hung history are still private to the worker: start it over in the trace
+                    let hno = now.0;
+                    let h = &hists[(hno as usize) - first_no];
+                    let mut sorted = h.indexes.clone();
+                    sorted.sort_by_key(|d| d.idx);
+                    ev.push(json!({"ev":"Reset","h":hno,"idxs": sorted.iter().map(|d| json!({"real": d.idx as i64, "metric": d.metric.short(), "dim": d.dim as i64})).collect::<Vec<_>>(),
+                        "ids": [], "nids": 0, "label": h.label, "mapfull": false}));
+                    ev.push(json!({"ev":"Hang","h":hno,"k":now.1,"secs":hang_secs as i64}));
+                    let a = agg.lock().unwrap();
+                    finish(&ev, &a, true);
+                    std::process::exit(0);
+                }
+            }
+        }
+    });
+    let ev = events.lock().unwrap();
+    let a = agg.lock().unwrap();
+    finish(&ev, &a, false);
 }
 
 fn main() {
